@@ -13,11 +13,13 @@ PCT = [b'1', b'10', b'20', b'50', b'75', b'80', b'100']
 SIZE = [b'2mb', b'64kb', b'1MB', b'512', b'1048576', b'10k', b'1g', b'8192b', b'16KB']
 REFS = [b'env:HK_TOKEN', b'env:HK_TOKEN2', b'env:HOOKAIDO_PULL_TOKEN', b'raw:s3cr3t', b'raw:a b', b'raw:x"y',
         b'file:/etc/hk/token', b'file:C:\\hk\\token.txt', b'vault:secret/data/hk#token', b'raw:{$HK_A}',
-        b'{$HK_REF}', b'{env.HK_REF}', b'{$HK_UNSET:raw:dflt}', b'{file.%FILE%}']
+        b'{$HK_REF}', b'{env.HK_REF}', b'{$HK_UNSET:raw:dflt}', b'{file.%FILE%}',
+        b'raw:s3cr%t', b'raw:100%%', b'raw:tok%den']
 URLS = [b'https://ci.internal/build', b'https://billing.internal/stripe', b'http://10.0.0.1:8080/x?y=1&z=2',
         b'https://hooks.example.com/a/b', b'https://{$HK_HOST}/hook', b'https://example.com/p#frag',
         b'https://example.com/with space', b'https://ex\xc3\xa4mple.com/\xc3\xbc', b'http://[::1]:9000/v6',
-        b'https://a.example/1', b'https://a.example/2', b'https://a.example/3']
+        b'https://a.example/1', b'https://a.example/2', b'https://a.example/3',
+        b'https://a.example/p%20q', b'https://a.example/100%25?x=%s']
 PATHS_ROUTE = [b'/webhooks/github', b'/webhooks/stripe', b'/a', b'/b', b'/jobs/deploy', b'/jobs/report', b'/x/y/z',
                b'/with space', b'/\xc3\xbcber', b'/hash#tag', b'/q"uote', b'/back\\slash', b'/{$HK_A}/hook',
                b'/brace{x}', b'/semi;colon', b'/webhooks/github/', b'/A', b'/v1.0/hook-2_x~']
@@ -28,7 +30,7 @@ FILES = [b'/etc/hk/cert.pem', b'/etc/hk/key.pem', b'/etc/hk/ca.pem', b'C:\\certs
 HOSTS = [b'hooks.example.com', b'*.example.com', b'example.com:8443', b'EXAMPLE.com', b'localhost', b'10.0.0.7']
 METHODS = [b'POST', b'GET', b'put', b'PATCH', b'DELETE', b'Head']
 HDRN = [b'X-GitHub-Event', b'Content-Type', b'X-Hub-Signature-256', b'x-lower', b'Authorization', b'X-A']
-HDRV = [b'push', b'application/json', b'Bearer token', b'a,b', b'v=1;x', b'\xc3\xa9']
+HDRV = [b'push', b'application/json', b'Bearer token', b'a,b', b'v=1;x', b'\xc3\xa9', b'50%', b'%v']
 IPS = [b'203.0.113.0/24', b'10.0.0.1', b'2001:db8::/32', b'::1', b'192.168.0.0/16']
 EGRESS = [b'*.internal.example.com', b'169.254.0.0/16', b'example.com', b'10.0.0.5', b'fd00::/8', b'api.github.com']
 LABELS = [b'github', b'push-events', b'a.b:c-1', b'billing', b'ep_1', b'App2', b'x']
@@ -54,7 +56,8 @@ WEIRD = [b'', b'', b' ', b'\t', b'  ', b'a b', b'x#y', b'{foo}', b'{', b'}', b'"
          b'NaN', b'1e3', b'99999999999999999999', b'{$HK_A}{$HK_A}', b'{$HK_A}x', b'pre{$HK_A}', b'{env.HK_A}',
          b'on;', b'\\n', b'#', b' lead', b'trail ', b'\xc2\xa0', b'\xe2\x80\xa8', b'deny', b'allow', b'retry', b'sign',
          b'method', b'host', b'secret', b'token', b'{$HK_A', b'$HK_A}', b'{{x}}', b'{"}', b'{#}',
-         b'\x0b', b'\x0c', b'\xc2\x85', b'\xe3\x80\x80', b'\xe2\x80\x83\xc2\xa0', b'a\xc2\xa0b', b'\xe2\x80\x8b']
+         b'\x0b', b'\x0c', b'\xc2\x85', b'\xe3\x80\x80', b'\xe2\x80\x83\xc2\xa0', b'a\xc2\xa0b', b'\xe2\x80\x8b',
+         b'%', b'%s', b'100%', b'%%', b'%[1]s', b'%!d(MISSING)', b'a%20b']
 # unquoted spellings with an undecodable byte after the first rune: the lexer lets them through
 RAW_INVALID = [b'a\xffb', b'x\xc3', b'/p\xfe', b'env:T\x80']
 
